@@ -25,8 +25,8 @@ func init() {
 	core.Register(&core.Prop{
 		ID:       "C17",
 		Title:    "Rune-aware string helpers never split a rune and match rune-slice definitions",
-		Quick:    100000,
-		Thorough: 3000000,
+		Quick:    14000,
+		Thorough: 600000,
 		Gen:      gen,
 		Corpus:   corpus,
 		Impl:     impl,
@@ -49,7 +49,7 @@ func init() {
 			}
 			return false
 		},
-		Rule:     "one subject string and 1..8 independent calls on it. Streams: mixed = 0..9 fragments of {a,B,_,1,é,你,😀,\\xff,\\xe4\\xbd}; edge = the same mixed 50/50 with boundary scalars of every encoded length (U+7F,U+80,U+7FF,U+800,U+D7FF,U+E000,U+FFFD,U+FFFF,U+10000,U+10FFFF) and malformed sequences (lone continuation, truncated 2/3/4-byte, overlong, surrogate, >U+10FFFF, 0xf8); ident = words of the grammar [a-z][a-z0-9]*(_[a-z][a-z0-9]*)*; ident-mutated = one insertion of _,A,Z,1,é,你,\\xff,_1 into such a word; camel = the camelCase/PascalCase image of such a word. Arguments 0..runeCount+3 (30% within ±1..3 of the end, 30% in the lower half so that sums stay inside), 4% huge (MaxInt64-k, MaxInt64/2+k, MaxInt64-runeCount-k, 2^31..2^62: sums wrap around in int), -1 for Sub's length, 2% negative (correspondence only). history (header `@ C17 H`) = 3-8 calls on DIFFERENT subjects per case (lines `on <hex> <op>`): long results (>= 1024 / 4096, rarely 65536 bytes) followed by calls of the same and other functions on other subjects, RemoveRunes with a predicate that panics at its nth invocation (recovered) followed by ordinary calls; every returned string is kept with an independent copy and re-compared after every later call (results ledger, also within the ordinary cases); pairs of DIFFERENT identifiers with equal length and equal classic multiplicative string hash (h*31, *33, *131, *1313, *65599 mod 2^32 and 2^64; found by lattice reduction) converted one after the other; different long texts of equal byte length written into the SAME caller buffer and viewed as strings (lines `onbuf <id> <hex> <op>`) with Sub paging through each, and allocate-call-drop rounds separated by runtime.GC() (line `gc`); large (header `@ C17 L`) = subjects of 1 000-16 384 runes (rarely 65 535-65 537; thorough up to 100 000) of mixed / single / single-wide-rune-in-ASCII / invalid composition and identifiers of 500+ segments, arguments 0,1,n-1,n,n+1,2n,MaxInt64-k and 255..65537, masks of 0, 1, up to 6000 runes. Corpus: every string of ≤ 3 fragments with every in-scope argument. Non-trivial = the subject contains a multi-byte rune or an invalid byte, or is a grammar identifier with at least one underscore; distinct by hash of subject+ops",
+		Rule:     "one subject string and 2..14 independent calls on it. Streams: mixed = 0..9 fragments of {a,B,_,1,é,你,😀,\\xff,\\xe4\\xbd}; edge = the same mixed 50/50 with boundary scalars of every encoded length (U+7F,U+80,U+7FF,U+800,U+D7FF,U+E000,U+FFFD,U+FFFF,U+10000,U+10FFFF) and malformed sequences (lone continuation, truncated 2/3/4-byte, overlong, surrogate, >U+10FFFF, 0xf8); ident = words of the grammar [a-z][a-z0-9]*(_[a-z][a-z0-9]*)*; ident-mutated = one insertion of _,A,Z,1,é,你,\\xff,_1 into such a word; camel = the camelCase/PascalCase image of such a word. Arguments 0..runeCount+3 (30% within ±1..3 of the end, 30% in the lower half so that sums stay inside), 4% huge (MaxInt64-k, MaxInt64/2+k, MaxInt64-runeCount-k, 2^31..2^62: sums wrap around in int), -1 for Sub's length, 2% negative (correspondence only). history (header `@ C17 H`) = 3-8 calls on DIFFERENT subjects per case (lines `on <hex> <op>`): long results (>= 1024 / 4096, rarely 65536 bytes) followed by calls of the same and other functions on other subjects, RemoveRunes with a predicate that panics at its nth invocation (recovered) followed by ordinary calls; every returned string is kept with an independent copy and re-compared after every later call (results ledger, also within the ordinary cases); pairs of DIFFERENT identifiers with equal length and equal classic multiplicative string hash (h*31, *33, *131, *1313, *65599 mod 2^32 and 2^64; found by lattice reduction) converted one after the other; different long texts of equal byte length written into the SAME caller buffer and viewed as strings (lines `onbuf <id> <hex> <op>`) with Sub paging through each, and allocate-call-drop rounds separated by runtime.GC() (line `gc`); large (header `@ C17 L`) = subjects of 1 000-16 384 runes (rarely 65 535-65 537; thorough up to 100 000) of mixed / single / single-wide-rune-in-ASCII / invalid composition and identifiers of 500+ segments, arguments 0,1,n-1,n,n+1,2n,MaxInt64-k and 255..65537, masks of 0, 1, up to 6000 runes. Corpus: every string of ≤ 3 fragments with every in-scope argument. Non-trivial = the subject contains a multi-byte rune or an invalid byte, or is a grammar identifier with at least one underscore; distinct by hash of subject+ops",
 		Classify: classify,
 		Shrink:   shrink,
 		Parallel: true,
@@ -577,11 +577,11 @@ func genHist(r *core.Rand, tier string) core.Case {
 }
 
 func gen(r *core.Rand, tier string) core.Case {
-	if (tier == "thorough" && r.Intn(1000) < 25) || (tier != "thorough" && r.Intn(1000) < 12) {
+	if (tier == "thorough" && r.Intn(1000) < 25) || (tier != "thorough" && r.Intn(1000) < 25) {
 		return genHist(r, tier)
 	}
 	// large stream: ~0.3 % of the cases in quick (about 300), 0.1 % of the (30x larger) thorough budget
-	if (tier != "thorough" && r.Intn(1000) < 3) || (tier == "thorough" && r.Intn(1000) < 1) {
+	if (tier != "thorough" && r.Intn(1000) < 9) || (tier == "thorough" && r.Intn(1000) < 1) {
 		return genLarge(r, tier)
 	}
 	var s, tag string
@@ -621,7 +621,7 @@ func gen(r *core.Rand, tier string) core.Case {
 		return r.Range(0, n+3)
 	}
 	lines := []string{"@ C17 s " + hx(s)}
-	k := r.Range(1, 8)
+	k := r.Range(2, 14) // more calls per case, fewer cases: the per-case overhead of the runner dominates under load
 	ident := tag == "ident" || tag == "ident-mutated" || tag == "camel"
 	for i := 0; i < k; i++ {
 		var w []int
